@@ -541,9 +541,12 @@ def task_equivariance(pr, repo):
                     raise Infeasible()
                 raise
             if getattr(ctx, 'orth_calls', 0):
+                rs0 = getattr(ctx, 'rescales', [])
                 ctx.oblige('EQ[2-bond trigonal]: the placement with two bonded neighbours is built from the two bond vectors alone - it never '
                            'takes its direction from Vector.orthogonal(), whose contract (ORT) promises a perpendicular vector, not one that '
-                           'turns with the structure', False, meta={'replay': eq_replay})
+                           'turns with the structure (except where the bisector does not exist: the two unit bond vectors cancel)',
+                           And(*[rs0[0]['r'][c] + rs0[1]['r'][c] == 0 for c in range(3)]) if len(rs0) >= 2 else False,
+                           meta={'replay': eq_replay})
                 return
             rs = getattr(ctx, 'rescales', [])
             if len(rs) != 6:
